@@ -154,8 +154,11 @@ pub fn gen_inputs(tier: &str, seed: u64, widen: bool) -> (Vec<(String, bool)>, u
         let mut s = String::new();
         for _ in 0..n {
             s.push_str(*rng.pick(PIECES));
-            if rng.chance(1, 3) {
-                s.push(' ');
+            match rng.below(9) {
+                0..=2 => s.push(' '),
+                // a comment between two tokens (the parser must skip every kind of trivia wherever it skips whitespace)
+                3 => s.push_str(" // c\n"),
+                _ => {}
             }
         }
         texts.push(s);
@@ -177,6 +180,33 @@ pub fn gen_inputs(tier: &str, seed: u64, widen: bool) -> (Vec<(String, bool)>, u
         for _ in 0..n_mut {
             let base = rng.pick(&corpus);
             texts.push(mutate(&mut rng, base));
+        }
+    }
+    // 4b. trivia between every pair of adjacent tokens of the (small) corpus files, one place at a time
+    let n_triv = if widen { 40_000 } else if tier == "thorough" { 15_000 } else { 2500 };
+    let small: Vec<&String> = corpus.iter().filter(|c| c.len() <= 1500).collect();
+    if !small.is_empty() {
+        let mut made = 0;
+        let mut guard = 0;
+        while made < n_triv && guard < n_triv * 4 {
+            guard += 1;
+            let base = *rng.pick(&small);
+            let toks = lexer::lex(base);
+            if toks.len() < 2 {
+                continue;
+            }
+            let k = 1 + rng.below(toks.len() as u64 - 1) as usize;
+            let at: usize = u32::from(toks.range(k).start()) as usize;
+            if !base.is_char_boundary(at) {
+                continue;
+            }
+            let piece = *rng.pick(&[" // c\n", "//\n", "\n", " ", "\t// é\n", " // a // b\n  "]);
+            let mut t = String::with_capacity(base.len() + piece.len());
+            t.push_str(&base[..at]);
+            t.push_str(piece);
+            t.push_str(&base[at..]);
+            texts.push(t);
+            made += 1;
         }
     }
     // 5. random unicode / bytes
